@@ -184,8 +184,14 @@ def cd(t):
 
 
 def lin(t):
+    """does the ownership flag of a function input of this type matter?  Yes for every
+    non-copyable type (qubits, but also arrays: a borrowed non-copyable input is handed back as an
+    extra output, so `(array @owned) -> None` and `(array) -> None` are different function types).
+    The statement's "linear function inputs" is read in this sense; /repo was fixed accordingly
+    (it only compared flags of inputs that are neither copyable nor droppable, which let affine
+    inputs with different ownership unify and produced invalid HUGR - found by C01)."""
     c, d = cd(t)
-    return not c and not d
+    return not c
 
 
 def show(t):
@@ -630,8 +636,8 @@ def evaluate_unify(case, honour_exclude=True):
         for _, u in _positions(term):
             if u[0] == "fn":
                 for _, x in u[1]:
-                    if lin(x) != W.to_real(x).linear:
-                        out["harness"].append(f"mirror linearity differs from .linear for {show(x)}")
+                    if lin(x) != (not W.to_real(x).copyable):
+                        out["harness"].append(f"mirror non-copyability differs from .copyable for {show(x)}")
                         return out
     # ---- the call under test, within a step / recursion budget
     W.steps[0] = 0
